@@ -27,4 +27,25 @@ template<class T> static inline bool verif_same_scalar(T a, T b) { return a == b
 // floating results are compared bit for bit (NaN-safe)
 template<> inline bool verif_same_scalar<double>(double a, double b) { unsigned long x, y; memcpy(&x, &a, 8); memcpy(&y, &b, 8); return x == y; }
 template<> inline bool verif_same_scalar<float>(float a, float b) { unsigned x, y; memcpy(&x, &a, 4); memcpy(&y, &b, 4); return x == y; }
+#ifdef VPY_H
+// Python argument objects from C++ values, and comparison of a returned Python object with a C++ value
+static inline PyObject *vpy_of(bool v) { return vpy_bool(v); }
+static inline PyObject *vpy_of(double v) { return vpy_float(v); }
+static inline PyObject *vpy_of(float v) { return vpy_float((double)v); }
+static inline PyObject *vpy_of(unsigned long v) { return vpy_uint(v); }
+static inline PyObject *vpy_of(unsigned long long v) { return vpy_uint((unsigned long)v); }
+static inline PyObject *vpy_of(unsigned int v) { return vpy_uint(v); }
+static inline PyObject *vpy_of(unsigned short v) { return vpy_uint(v); }
+static inline PyObject *vpy_of(unsigned char v) { return vpy_uint(v); }
+static inline PyObject *vpy_of(long v) { return vpy_int(v); }
+static inline PyObject *vpy_of(long long v) { return vpy_int((long)v); }
+static inline PyObject *vpy_of(int v) { return vpy_int(v); }
+static inline PyObject *vpy_of(short v) { return vpy_int(v); }
+static inline PyObject *vpy_of(signed char v) { return vpy_int(v); }
+static inline PyObject *vpy_of(char v) { return vpy_int(v); }
+static inline bool vpy_equals(PyObject *o, bool v) { return vpy_kind(o) == 3 && (vpy_ival(o) != 0) == v; }
+static inline bool vpy_equals(PyObject *o, double v) { return vpy_kind(o) == 2 && verif_same_scalar<double>(vpy_dval(o), v); }
+static inline bool vpy_equals(PyObject *o, float v) { return vpy_kind(o) == 2 && verif_same_scalar<double>(vpy_dval(o), (double)v); }
+template<class T> static inline bool vpy_equals(PyObject *o, T v) { return (vpy_kind(o) == 1 || vpy_kind(o) == 3) && (T)vpy_ival(o) == v; }
+#endif
 #endif
